@@ -137,6 +137,13 @@ pub fn check_c01(c: &Case, acc: &mut Acc) -> Check {
 pub fn check_c02(c: &Case, acc: &mut Acc) -> Check {
     let Some((served, view)) = serve_view(c, acc, 0) else { return Ok(()) };
     if served.trace.panicked().is_some() {
+        // The drain died (C13's subject), but bytes that were delivered before that and are not the
+        // bytes their part's Content-Range names are wrong all the same.
+        if c.req.method == "GET" {
+            if let Some(i) = view.first_issue(&["bytes:multipart-part", "bytes:200-body", "bytes:206-body"]) {
+                return fail(format!("{}:{}:before-panic", i.sig, kind_name(&view)), format!("{}; (the drain panicked afterwards) {}", i.msg, ctx(c)));
+            }
+        }
         acc.count("aborted-by-panic-in-drain(see C13)");
         return Ok(());
     }
@@ -307,6 +314,37 @@ fn run_with(cx: &Cx, range_w: u32, f: &(dyn Fn(&Case, &mut Acc) -> Check + Sync)
     acc.merge(par_proptest(cx, "random", 200_000 * n, case_strategy(range_w), |c, acc| f(c, acc)));
     acc.merge(par_proptest(cx, "methods-and-errors", 30_000 * n, method_strategy, |c, acc| f(c, acc)));
     acc.merge(par_proptest(cx, "multipart-small-parts", 40_000 * n, crate::props::c06::case_strategy, |c, acc| f(c, acc)));
+    // Every triple of ranges over a small grid of end points (nested, overlapping, touching,
+    // duplicate, in any order) on one entity: the relations *between* neighbouring ranges.
+    let grid: [u64; 8] = [0, 10, 20, 50, 60, 100, 200, 300];
+    let mut ivs: Vec<(u64, u64)> = Vec::new();
+    for (i, a) in grid.iter().enumerate() {
+        for b in &grid[i + 1..] {
+            ivs.push((*a, *b - 1));
+        }
+    }
+    let firsts: Vec<(u64, u64)> = ivs.clone();
+    acc.merge(par_units(cx, "range-relations", &firsts, true, "every triple of ranges with end points on {0,10,20,50,60,100,200,300} (first range = unit), alone and followed by a fourth range, entity of 2400 bytes", |cx, &a, acc| {
+        for b in &ivs {
+            for c3 in &ivs {
+                for plan in [vec![PStep::Rest], vec![PStep::Chunk(7), PStep::Pending, PStep::Rest]] {
+                    let case = Case {
+                        ent: EntitySpec { plan, ..EntitySpec::simple(2400) },
+                        req: ReqSpec::get().with("range", format!("bytes={}-{},{}-{},{}-{}", a.0, a.1, b.0, b.1, c3.0, c3.1)),
+                    };
+                    acc.run_case(cx, "range-relations", &case, |acc| f(&case, acc));
+                }
+                // a fourth range after the triple (whatever the triple did to the bookkeeping shows in it)
+                for d in [(200u64, 299u64), (0, 9)] {
+                    let case = Case {
+                        ent: EntitySpec::simple(2400),
+                        req: ReqSpec::get().with("range", format!("bytes={}-{},{}-{},{}-{},{}-{}", a.0, a.1, b.0, b.1, c3.0, c3.1, d.0, d.1)),
+                    };
+                    acc.run_case(cx, "range-relations", &case, |acc| f(&case, acc));
+                }
+            }
+        }
+    }));
     acc
 }
 
